@@ -198,7 +198,42 @@ def mutation_sites(repo: Repo) -> tuple[list[tuple[FuncInfo, ast.AST, str, str]]
                 t = flow.tags(n.value)
                 if t & {"L", "D"}:
                     out.append((fi, n, f"`{norm(stmt_of(n), 70)}` writes into {'one of the per-layer lists' if 'L' in t else 'the layer table'} of the architecture", "L" if "L" in t else "D"))
+    if out:
+        # helpers that only the LayeredArchitecture family calls (an extracted `_register(table, name, modules)`) define layers
+        # on its behalf: their writes are the family's own.  Computed only when there is something to report.
+        exempt = _definition_side(repo, in_family)
+        out = [site for site in out if site[0].fq not in exempt]
     return out, carriers
+
+
+def _definition_side(repo: Repo, in_family) -> set[str]:
+    """Functions outside the family all of whose callers (at least one) are in the family or are such functions themselves."""
+    from .common import callees_of
+
+    funcs = [f for f in repo.all_functions() if not isinstance(f.node, ast.Lambda)]
+    callers: dict[str, set[str]] = {}
+    fam_fq: set[str] = set()
+    for f in funcs:
+        if in_family(f):
+            fam_fq.add(f.fq)
+        try:
+            cs = callees_of(repo, f, byname=True)
+        except Exception:  # noqa: BLE001
+            cs = []
+        for c in cs:
+            callers.setdefault(c.fq, set()).add(f.fq)
+    exempt: set[str] = set()  # least fixpoint: call cycles on the rule side never justify themselves
+    changed = True
+    while changed:
+        changed = False
+        for f in funcs:
+            if f.fq in fam_fq or f.fq in exempt:
+                continue
+            cs = callers.get(f.fq, set()) - {f.fq}
+            if cs and all(c in fam_fq or c in exempt for c in cs):
+                exempt.add(f.fq)
+                changed = True
+    return exempt
 
 
 def check_architecture_untouched(repo: Repo, res: Result) -> None:
